@@ -58,16 +58,21 @@ Proof.
   - intros i rt Hi. apply Z.eqb_eq. apply B. eapply nth_error_In; eauto.
 Qed.
 
-Theorem judge_accepts_finished : forall args,
-  wf_syntax args = true -> finishes args = true -> judge (put_list args ++ put_list (run_case args)) = [1].
+Definition j_init (fill : Z) (n : nat) : jstate :=
+  {| j_q := map fill_val (map Z.of_nat (seq 0 (Z.to_nat fill))); j_ths := repeat t_init n; j_ok := true |}.
+
+(* a syntactically well-formed case runs without panic, and the judge follows it *)
+Lemma wf_go k bh bl fill nt r progs r1 sched r2 :
+  get_lists (Z.to_nat nt) r = (progs, r1) -> get_list r1 = (sched, r2) ->
+  wf_syntax (k :: bh :: bl :: fill :: nt :: r) = true ->
+  length progs = Z.to_nat nt /\ Forall (fun t => 0 <= t) (sched ++ completion (Z.to_nat nt) progs) /\
+  exists c' rts' evs,
+    go (seq_state k (bh * 2 ^ 32 + bl) fill (Z.to_nat nt)) (start_rts progs) (sched ++ completion (Z.to_nat nt) progs) [] =
+      Some (c', rts', rev (flat_map enc_jev evs)) /\
+    Inv k c' /\ SIM k progs (sh c') (ths c') rts' (fold_left (jstep (2 ^ k) progs) evs (j_init fill (Z.to_nat nt))).
 Proof.
-  intros args Hwf Hfin.
-  destruct args as [|k [|bh [|bl [|fill [|nt r]]]]]; try discriminate Hwf.
-  unfold judge. rewrite get_list_put_app, get_list_put.
-  unfold wf_syntax in Hwf. unfold finishes in Hfin. cbn [run_case].
-  pose proof (get_lists_length (Z.to_nat nt) r) as Hlen.
-  destruct (get_lists (Z.to_nat nt) r) as [progs r1] eqn:Egl. cbn [fst] in Hlen.
-  destruct (get_list r1) as [sched r2] eqn:Egs.
+  intros Egl Egs Hwf. unfold wf_syntax in Hwf. rewrite Egl, Egs in Hwf.
+  pose proof (get_lists_length (Z.to_nat nt) r) as Hlen. rewrite Egl in Hlen. cbn [fst] in Hlen.
   repeat (apply andb_true_iff in Hwf; destruct Hwf as [Hwf ?]).
   repeat match goal with H : (_ <=? _) = true |- _ => apply Z.leb_le in H end.
   set (n := Z.to_nat nt) in *. set (base := bh * 2 ^ 32 + bl) in *.
@@ -81,14 +86,29 @@ Proof.
     - apply Forall_forall. intros t Ht. match goal with H : forallb (fun t => 0 <=? t) sched = true |- _ => rewrite forallb_forall in H; specialize (H t Ht) end. lia.
     - unfold completion. apply Forall_concat. apply Forall_forall. intros l Hl. apply repeat_spec in Hl. subst l.
       apply Forall_forall. intros t Ht. apply in_map_iff in Ht. destruct Ht as (j & <- & _). lia. }
+  split; [exact Hlen|]. split; [exact Hnn|].
   destruct (go_ok k progs (tl (sh c0)) (hd (sh c0)) (sched ++ completion n progs) c0 (start_rts progs) _ 0 []
               HI0 (SIM_init k base fill n progs Hlen) (progs_wf_of progs ltac:(assumption)) Hnn HB0 ltac:(lia) ltac:(unfold M32; lia))
     as (c' & rts' & evs & Hgo & HI' & HS').
-  fold (start_rts progs). fold c0. rewrite Hgo in *. rewrite app_nil_r in *.
+  rewrite app_nil_r in Hgo. exists c', rts', evs. auto.
+Qed.
+
+Theorem judge_accepts_finished : forall args,
+  wf_syntax args = true -> finishes args = true -> judge (put_list args ++ put_list (run_case args)) = [1].
+Proof.
+  intros args Hwf Hfin.
+  destruct args as [|k [|bh [|bl [|fill [|nt r]]]]]; try discriminate Hwf.
+  unfold judge. rewrite get_list_put_app, get_list_put.
+  unfold finishes in Hfin. cbn [run_case].
+  destruct (get_lists (Z.to_nat nt) r) as [progs r1] eqn:Egl.
+  destruct (get_list r1) as [sched r2] eqn:Egs.
+  destruct (wf_go _ _ _ _ _ _ _ _ _ _ Egl Egs Hwf) as (Hlen & Hnn & c' & rts' & evs & Hgo & HI' & HS').
+  fold (start_rts progs). rewrite Hgo in *.
   destruct (finished_spec c' rts' Hfin) as [Hidle Hw0].
   rewrite !rev'_rev. cbn [app].
+  change {| j_q := map fill_val (map Z.of_nat (seq 0 (Z.to_nat fill)));
+            j_ths := repeat {| t_next := 0; t_cur := None; t_done := [] |} (Z.to_nat nt); j_ok := true |} with (j_init fill (Z.to_nat nt)).
   set (js' := fold_left (jstep (2 ^ k) progs) evs _) in *.
-  change {| t_next := 0; t_cur := None; t_done := [] |} with t_init.
   rewrite judge_steps_evs.
   2:{ rewrite app_length. pose proof (flat_map_enc_len evs). lia. }
   fold js'.
